@@ -289,6 +289,7 @@ class HttpParser(abc.ABC, Generic[_MsgT]):
         self._lines: list[bytes] = []
         self._tail = b""
         self._upgraded = False
+        self._should_close = False
         self._pending_upgrade = False
         self._payload = None
         self._payload_parser: HttpPayloadParser | None = None
@@ -350,7 +351,9 @@ class HttpParser(abc.ABC, Generic[_MsgT]):
         start_pos = 0
         loop = self.loop
 
-        should_close = False
+        # Remembered across calls: whether bytes after a message that closes the
+        # connection are refused must not depend on how the stream was read.
+        should_close = self._should_close
         while start_pos < data_len or self._payload_has_more_data:
             # read HTTP message (request/response line + headers), \r\n\r\n
             # and split by lines
@@ -526,7 +529,7 @@ class HttpParser(abc.ABC, Generic[_MsgT]):
                         messages.append((msg, payload))
                         if self._max_msg_queue_size:
                             self._msg_in_flight += 1
-                        should_close = msg.should_close
+                        should_close = self._should_close = msg.should_close
                 else:
                     self._tail = data[start_pos:]
                     # A bare LF here means CRLF was required:
